@@ -11,8 +11,19 @@
 #include <vector>
 #include <string>
 #include <cstdio>
+#include <csignal>
+#include <csetjmp>
 
 static bool g_verbose = false;
+
+// vf::Rat aborts on a division by zero or an overflow.  When that happens inside the library the case is reported as a
+// failing input (ORACLE=FAIL:arithmetic-trap) and the run continues with the next case.
+static sigjmp_buf g_trap_jb; static volatile int g_trap_armed = 0;
+static void vf_trap_handler(int) { if (g_trap_armed) { g_trap_armed = 0; siglongjmp(g_trap_jb, 1); } std::_Exit(134); }
+static void vf_arm_trap() { static bool inst = false; if (!inst) { std::signal(SIGABRT, vf_trap_handler); inst = true; } g_trap_armed = 1; }
+#define VF_TRAP_GUARD(HEAD, INPUTS) \
+    vf_arm_trap(); \
+    if (sigsetjmp(g_trap_jb, 1)) { std::printf("%s %s | ORACLE=FAIL:arithmetic-trap(division-by-zero-or-overflow-inside-the-library) OOB=0\n", HEAD, INPUTS); return; }
 
 namespace vlu {
 using vf::Rat; using vf::i128;
@@ -162,6 +173,8 @@ template<size_t n, int STRAT, int ENC> void run_lu(unsigned seed, int fam) {
     Tensor<Rat, n, n> A;
     for (size_t i = 0; i < n * n; ++i) A.data()[i] = Rat::make(SA[i].n, SA[i].d);
     const Tensor<Rat, n, n> A0(A);
+    const std::string astr = "A=" + mstr(A0);
+    VF_TRAP_GUARD(head, astr.c_str())
     // the outputs hold junk before the call: every entry the property speaks about must be written by the library
     Tensor<Rat, n, n> L, U, Pm; L.fill(Rat(7)); U.fill(Rat(-5)); Pm.fill(Rat(3));
     Tensor<size_t, n> Pv; Pv.fill(999);
@@ -203,11 +216,12 @@ template<size_t n, int STRAT, int ENC> void run_lu(unsigned seed, int fam) {
     // heights: every rational ever created during this case is in the pool
     i128 hmax = 0; for (const vf::RatV& v : vf::ratpool.v) { if (vf::iabs(v.n) > hmax) hmax = vf::iabs(v.n); if (v.d > hmax) hmax = v.d; }
     int bits = 0; while (hmax > 0) { ++bits; hmax >>= 1; }
+    g_trap_armed = 0;
     if (bits > 62) { std::printf("note: %s arithmetic height %d bits: case not judged\n", head, bits); return; }
     std::string pstr = "-";
     if (ENC == 1) { pstr.clear(); for (size_t i = 0; i < n; ++i) { if (i) pstr += ','; pstr += std::to_string(Pv(i)); } }
     if (ENC == 2) pstr = mstr(Pm);
-    std::printf("%s A=%s | L=%s U=%s P=%s R=%s ORACLE=%s OOB=0 HBITS=%d TRIES=%d\n", head, mstr(A0).c_str(),
+    std::printf("%s %s | L=%s U=%s P=%s R=%s ORACLE=%s OOB=0 HBITS=%d TRIES=%d\n", head, astr.c_str(),
                 mstr(L).c_str(), mstr(U).c_str(), pstr.c_str(), mstr(R).c_str(), why.empty() ? "ok" : ("FAIL:" + why).c_str(), bits, tries);
 }
 } // namespace vlu
